@@ -62,8 +62,9 @@ NCells == IF ns <= T THEN 1 ELSE CeilDiv(ns - T, S)      \* #{c >= 0 : Lo(c) < n
 Cells == 0..(NCells - 1)
 Owner(c) == Min(c, LastB)
 CellsOf(b) == IF LastS(b) = ns THEN {c \in Cells : c >= b} ELSE {b} \cap Cells
-\* rows of a file an earlier run may have left under the output name: none, shorter, longer than this run's result
-Stales == {0, 1, ns + pad + 5}
+\* rows of a file an earlier run may have left under the output name: none, shorter, exactly as long as, longer than
+\* this run's result
+Stales == {0, 1, ns + pad, ns + pad + 5}
 
 -----------------------------------------------------------------------------
 Init ==
